@@ -127,6 +127,15 @@ def generate(seed, prop):
             sets[0]["fcs"][-1] = float(nyq[0] * rng.choice([1.02, 1.1, 1.3]) if nyq[0] * 1.3 < nyq[-1] else (nyq[0] + nyq[-1]) / 2)
             if rng.random() < 0.6:
                 sets[0]["policy"] = "frequency_domain_resampling"
+    if n_set >= 2 and rng.random() < 0.3:
+        # two settings objects that differ ONLY in the interior of the centre-frequency grid (same size, same first and last
+        # value: geometric against linear spacing), used one after the other on the same recordings
+        sets[1] = copy.deepcopy(sets[0])
+        f0 = sorted(sets[0]["fcs"])
+        sets[0]["fcs"] = f0
+        sets[1]["fcs"] = [float(x) for x in np.linspace(f0[0], f0[-1], len(f0))]
+        if rng.random() < 0.5:
+            sets[0]["op"], sets[0]["bw"] = sets[1]["op"], sets[1]["bw"] = "konno_and_ohmachi", 40
     own = (prop == "C09")
     w = {"process": 5.0, "repeat": 2.0 if prop == "C09" else 0.5, "mutate_record": 1.5,
          "mutate_settings": 1.5 if prop == "C09" else 0.5, "process_bad": 0.8}
@@ -482,12 +491,21 @@ def solo_rows(st, record, spec, n):
     if key not in st.solo_cache:
         try:
             # the reference recording is built from the bare samples: nothing an earlier call may have left on the
-            # pool object (memoised spectra, say) can reach it
+            # pool object (memoised spectra, say) can reach it ...
             fresh = H.SeismicRecording3C(*[H.TimeSeries(np.array(getattr(record, c_).amplitude, dtype=float),
                                                         getattr(record, c_).dt_in_seconds) for c_ in ("ns", "ew", "vt")],
                                          degrees_from_north=record.degrees_from_north, meta=copy.deepcopy(record.meta))
-            res = _process(H, [fresh], make_settings(H, spec, fft_n=n))
-            st.solo_cache[key] = rows_of(H, res)
+            ref = getattr(st, "ref_server", None)
+            if ref is not None:
+                # ... and it is processed in a process of its own, forked from the state the run STARTED in: whatever the
+                # run's calls have left in module-level state (weights, coefficients, buffers) cannot reach the reference
+                out = ref.call(_solo_in_child, fresh, spec, n)
+                if out is None:
+                    raise RuntimeError("solo refused")
+                st.solo_cache[key] = out
+            else:
+                res = _process(H, [fresh], make_settings(H, spec, fft_n=n))
+                st.solo_cache[key] = rows_of(H, res)
         except Exception:                      # noqa
             st.solo_cache[key] = None          # the solo result is refused (result validation, …)
     return st.solo_cache[key]
@@ -758,12 +776,94 @@ def _sig(ctx, st, op, last):
                   len(dts), min(len(recs), 4), "big" if big else "small", op.get("own"), ",".join(last))
 
 
+def _solo_in_child(fresh, spec, n):
+    H = hv()
+    try:
+        return rows_of(H, _process(H, [fresh], make_settings(H, spec, fft_n=n)))
+    except Exception:                                       # noqa
+        return None
+
+
+class RefServer:
+    """A process forked when the run starts (before any call of the run); every request is served by a grandchild forked
+    from that pristine state, so references share no process state with the run - nor with one another."""
+
+    def __init__(self):
+        import os
+        import pickle
+        self.os, self.pickle = os, pickle
+        p2c_r, p2c_w = os.pipe()
+        c2p_r, c2p_w = os.pipe()
+        pid = os.fork()
+        if pid == 0:
+            try:
+                os.close(p2c_w)
+                os.close(c2p_r)
+                rx, tx = os.fdopen(p2c_r, "rb"), os.fdopen(c2p_w, "wb")
+                while True:
+                    try:
+                        fn, args = pickle.load(rx)
+                    except EOFError:
+                        break
+                    r, w = os.pipe()
+                    g = os.fork()
+                    if g == 0:
+                        code = 0
+                        try:
+                            os.close(r)
+                            with os.fdopen(w, "wb") as f:
+                                pickle.dump(fn(*args), f)
+                        except BaseException:               # noqa
+                            code = 1
+                        finally:
+                            os._exit(code)
+                    os.close(w)
+                    with os.fdopen(r, "rb") as f:
+                        data = f.read()
+                    os.waitpid(g, 0)
+                    pickle.dump(data, tx)
+                    tx.flush()
+            finally:
+                os._exit(0)
+        os.close(p2c_r)
+        os.close(c2p_w)
+        self.pid, self.tx, self.rx = pid, os.fdopen(p2c_w, "wb"), os.fdopen(c2p_r, "rb")
+
+    def call(self, fn, *args):
+        self.pickle.dump((fn, args), self.tx)
+        self.tx.flush()
+        data = self.pickle.load(self.rx)
+        if not data:
+            raise HarnessError("reference process died")
+        return self.pickle.loads(data)
+
+    def close(self):
+        try:
+            self.tx.close()
+            self.rx.close()
+            self.os.waitpid(self.pid, 0)
+        except Exception:                                   # noqa
+            pass
+
+
 def execute(triple, prop):
     ctx = Ctx(prop)
     violation = None
     last = []
+    ref = RefServer() if prop == "C03" else None
+    try:
+        return _execute(ctx, triple, prop, ref)
+    finally:
+        if ref is not None:
+            ref.close()
+
+
+def _execute(ctx, triple, prop, ref):
+    violation = None
+    last = []
     try:
         st = build(triple["world"])
+        st.ref_server = ref
         ctx.event(op="build", recs=[sha_array(r.ns.amplitude) for r in st.recs])
         for op in triple["ops"]:
             apply_op(ctx, st, op, prop)
